@@ -1,7 +1,7 @@
 SPECIFICATION Spec
 CONSTANTS
   MaxOps = 0
-  MaxLevel = 6
+  MaxLevel = 4
   KeepLast = FALSE
   Record = FALSE
   EmitBadOnly = FALSE
